@@ -155,8 +155,8 @@ type SackPeer struct {
 
 	// behaviour
 	ISN uint32 // becomes the driver's localInitSeq (the SYN-ACK's ack number)
-	// ISNFor, when set, gives each capture handle (connection) its own initial sequence number
-	ISNFor func(handle int) uint32
+	// ISNForPort, when set, gives each connection (identified by the tool's local port) its own initial sequence number
+	ISNForPort func(port uint16) uint32
 	// NoBlocks: handles listed here get plain ACKs (the harness model consults it)
 	ISNs       map[int]uint32
 	ServerISN  uint32
@@ -311,20 +311,16 @@ func (p *SackPeer) OnReadStart(w *simnet.Wire, h *simnet.Handle) {
 	show := p.ShowSynAck
 	p.mu.Unlock()
 	isn := p.ISN
-	if p.ISNFor != nil {
-		isn = p.ISNFor(h.Idx)
+	if p.ISNForPort != nil {
+		isn = p.ISNForPort(ra.Port())
 	}
-	p.mu.Lock()
-	if p.ISNs == nil {
-		p.ISNs = map[int]uint32{}
-	}
-	p.ISNs[h.Idx] = isn
-	p.mu.Unlock()
 	if show {
+		// the accepted connection is not necessarily the one of the handle that is reading right now (several
+		// SACK runs at once): like on a real interface, every capture handle sees the SYN-ACK
 		f := w.NewFrame(p.synAckBytes(ra.Addr().Unmap(), ra.Port(), isn), "handshake", nil)
 		p.mu.Lock()
 		p.SynAcks[h.Idx] = f
 		p.mu.Unlock()
-		w.Deliver(f, 0, h)
+		w.Deliver(f, 0, nil)
 	}
 }
